@@ -191,6 +191,11 @@ func (m *ModuleInstance) buildElementInstances(elements []ElementSegment) {
 				if index, ok := unwrapElementInitGlobalReference(idx); ok {
 					global := m.Globals[index]
 					v, _ := global.Value()
+					if index >= m.Source.ImportGlobalCount {
+						// A global of this module: an engine that owns the globals has not taken
+						// over their initial values yet (that happens in DoneInstantiation).
+						v = global.Val
+					}
 					inst[j] = Reference(v)
 				} else {
 					if idx != ElementInitNullReference {
